@@ -346,11 +346,36 @@ func c16Gen(r *vfRand, adv bool) c16In {
 		in.Ops = append(in.Ops, c16Op{Op: "pub", Topic: "x/y"})
 		return in
 	}
+	if r.Chance(1, 5) {
+		// drop and come back: the stored session must give the subscriptions back (or not, if clean)
+		c1, c2 := r.Chance(1, 4), r.Chance(1, 4)
+		connect("A", c1)
+		in.Ops = append(in.Ops, c16Op{Op: "sub", K: 0, Subs: subs()})
+		if r.Bool() {
+			in.Ops = append(in.Ops, c16Op{Op: "sub", K: 0, Subs: subs()})
+		}
+		if r.Chance(1, 3) {
+			in.Ops = append(in.Ops, c16Op{Op: "unsub", K: 0, Fs: []string{c16Filters[r.Intn(len(c16Filters))]}})
+		}
+		drop(0, r.PickStr("close", "disconnect"))
+		if r.Chance(1, 4) {
+			in.Ops = append(in.Ops, c16Op{Op: "pub", Topic: "a/b"})
+		}
+		connect("A", c2)
+		for _, t := range c16Topics {
+			in.Ops = append(in.Ops, c16Op{Op: "pub", Topic: t})
+		}
+		if r.Bool() {
+			in.Ops = append(in.Ops, c16Op{Op: "sub", K: 1, Subs: subs()})
+			in.Ops = append(in.Ops, c16Op{Op: "pub", Topic: "a/b"})
+		}
+		return in
+	}
 	connect("A", r.Bool())
 	n := r.Range(4, 11)
 	for i := 0; i < n; i++ {
 		switch k := r.Intn(20); {
-		case k < 4: // (re)connect, possibly taking a client id over
+		case k < 4 || (len(open) == 0 && k < 12): // (re)connect, possibly taking a client id over
 			connect(pickCid(), r.Bool())
 		case k < 8 && len(open) > 0:
 			in.Ops = append(in.Ops, c16Op{Op: "sub", K: open[r.Intn(len(open))], Subs: subs()})
@@ -388,7 +413,7 @@ func TestVerifC16(t *testing.T) {
 		src = "adv"
 	}
 	n := vfN(300)
-	for i := 0; i < n; i++ {
+	for i := 0; i < n && !c15GiveUp(); i++ {
 		r := root.Fork(i)
 		in := c16Gen(r, adv || i%10 == 9)
 		out.Emit(vfCase{ID: fmt.Sprintf("%s-life-%d", src, i), Src: src, Grp: "life", In: in, Obs: c16Run(in)})
